@@ -26,7 +26,7 @@ type c10Case struct {
 	MapOp   string       `json:"mapop,omitempty"` // "", identity, exclude, skipdir, rewrite
 	MapPath string       `json:"mappath,omitempty"`
 	Disk    bool         `json:"disk,omitempty"`
-	Reuse   bool         `json:"reuse,omitempty"` // one filtered FS value walked repeatedly and re-entrantly
+	Reuse   bool         `json:"reuse,omitempty"`  // one filtered FS value walked repeatedly and re-entrantly
 	Follow  []string     `json:"follow,omitempty"` // FollowPaths (the trees have no symlinks: each path stands for itself)
 }
 
